@@ -661,57 +661,78 @@ func ruleC09Idx(p *Prog, a *Anchors, r *Report) {
 		r.Unk("anchor", "-", "anchor unresolved: (*Value).IterateOrder")
 		return
 	}
-	fnParam := f.Params[1]
-	n := 0
+	// the callback is called in IterateOrder itself or in a method/helper it hands the callback to (iterateMap)
+	type cbSite struct {
+		fn *ssa.Function
+		cb ssa.Value
+	}
+	cbs := []cbSite{{f, f.Params[1]}}
 	for _, b := range f.Blocks {
 		for _, in := range b.Instrs {
 			c, ok := in.(*ssa.Call)
-			if !ok || c.Common().Value != ssa.Value(fnParam) {
+			if !ok || c.Common().StaticCallee() == nil || !p.InPkg(c.Common().StaticCallee()) || c.Common().StaticCallee().Blocks == nil {
 				continue
 			}
-			n++
-			args := c.Common().Args
-			key := "IterateOrder:callback"
-			idxOK := ascendingIndex(args[0])
-			if !idxOK {
-				// range over a slice: idx phi pattern handled by ascendingIndex; range over string/map yields Extract(next)
-				r.Bad(key+":idx", p.InstrPos(in), "idx argument %s is not an induction variable that steps by one per item (e.g. it is the key of a range over a string, i.e. a byte offset)", p.VN(args[0]))
-			} else {
-				r.OK(key+":idx", p.InstrPos(in), "idx is an ascending induction variable")
-			}
-			// count: len(...) of the iterated collection or a variable holding it
-			cnt := args[1]
-			if u, isU := cnt.(*ssa.UnOp); isU {
-				if sv := localLoadValue(u); sv != nil {
-					cnt = sv
+			for i, arg := range callArgs(c.Common()) {
+				if stripLoad(arg) == ssa.Value(f.Params[1]) && i < len(c.Common().StaticCallee().Params) {
+					cbs = append(cbs, cbSite{c.Common().StaticCallee(), c.Common().StaticCallee().Params[i]})
 				}
 			}
-			isLen := lenOperand(cnt) != nil
-			if cc, isCall := cnt.(*ssa.Call); isCall && cc.Common().StaticCallee() != nil {
-				nm := p.extName(cc.Common().StaticCallee())
-				if nm == "(reflect.Value).Len" || nm == "unicode/utf8.RuneCountInString" {
-					isLen = true
+		}
+	}
+	n := 0
+	for _, cbsite := range cbs {
+		fnParam := cbsite.cb
+		for _, b := range cbsite.fn.Blocks {
+			for _, in := range b.Instrs {
+				c, ok := in.(*ssa.Call)
+				if !ok || c.Common().Value != fnParam {
+					continue
 				}
-			}
-			if isLen {
-				r.OK(key+":count", p.InstrPos(in), "count is a length (%s)", p.VN(cnt))
-			} else {
-				r.Bad(key+":count", p.InstrPos(in), "count argument %s is not the length of the iterated collection", p.VN(cnt))
-			}
-			// the loop bound of idx is the same count
-			if hdr := loopHeaderOf(args[0]); hdr != nil && idxOK {
-				bounded := false
-				if iff, ok := hdr.Instrs[len(hdr.Instrs)-1].(*ssa.If); ok {
-					if bo, ok := iff.Cond.(*ssa.BinOp); ok && bo.Op == token.LSS {
-						if bo.Y == cnt || p.VN(bo.Y) == p.VN(cnt) || lenMatches(p, bo.Y, cnt) {
-							bounded = true
-						}
+				n++
+				args := c.Common().Args
+				key := "IterateOrder:callback"
+				idxOK := ascendingIndex(args[0])
+				if !idxOK {
+					// range over a slice: idx phi pattern handled by ascendingIndex; range over string/map yields Extract(next)
+					r.Bad(key+":idx", p.InstrPos(in), "idx argument %s is not an induction variable that steps by one per item (e.g. it is the key of a range over a string, i.e. a byte offset)", p.VN(args[0]))
+				} else {
+					r.OK(key+":idx", p.InstrPos(in), "idx is an ascending induction variable")
+				}
+				// count: len(...) of the iterated collection or a variable holding it
+				cnt := args[1]
+				if u, isU := cnt.(*ssa.UnOp); isU {
+					if sv := localLoadValue(u); sv != nil {
+						cnt = sv
 					}
 				}
-				if bounded {
-					r.OK(key+":bound", p.InstrPos(in), "the loop runs idx < count")
+				isLen := lenOperand(cnt) != nil
+				if cc, isCall := cnt.(*ssa.Call); isCall && cc.Common().StaticCallee() != nil {
+					nm := p.extName(cc.Common().StaticCallee())
+					if nm == "(reflect.Value).Len" || nm == "unicode/utf8.RuneCountInString" {
+						isLen = true
+					}
+				}
+				if isLen {
+					r.OK(key+":count", p.InstrPos(in), "count is a length (%s)", p.VN(cnt))
 				} else {
-					r.Unk(key+":bound", p.InstrPos(in), "cannot relate the loop bound to the count argument")
+					r.Bad(key+":count", p.InstrPos(in), "count argument %s is not the length of the iterated collection", p.VN(cnt))
+				}
+				// the loop bound of idx is the same count
+				if hdr := loopHeaderOf(args[0]); hdr != nil && idxOK {
+					bounded := false
+					if iff, ok := hdr.Instrs[len(hdr.Instrs)-1].(*ssa.If); ok {
+						if bo, ok := iff.Cond.(*ssa.BinOp); ok && bo.Op == token.LSS {
+							if bo.Y == cnt || p.VN(bo.Y) == p.VN(cnt) || lenMatches(p, bo.Y, cnt) {
+								bounded = true
+							}
+						}
+					}
+					if bounded {
+						r.OK(key+":bound", p.InstrPos(in), "the loop runs idx < count")
+					} else {
+						r.Unk(key+":bound", p.InstrPos(in), "cannot relate the loop bound to the count argument")
+					}
 				}
 			}
 		}
